@@ -258,4 +258,40 @@ def noRangeQuery (ov : Key → Bool) : Query := { ov := ov, inRange := fun _ => 
 /-- `max(1, ceil(log2(spacing / resolution)) + 1)` -/
 def levelMax (spacing res : Rat) (fuel : Nat) : Nat := max 1 (ceilLog2From (spacing / res) fuel 0 + 1)
 
+/-! ### grouping of contiguous chunks and fetching (`_fetch_and_decompress_points_of_nodes`, `_fetch_all_chunks`) -/
+
+structure GState where
+  groups : List (List Node)      -- finished groups, in order
+  current : List Node            -- the group being built, in order
+  lastEnd : Nat
+
+/-- one iteration of the grouping loop -/
+def groupStep (s : GState) (n : Node) : GState :=
+  if n.offset = s.lastEnd then { s with current := s.current ++ [n], lastEnd := s.lastEnd + n.byteSize }
+  else { groups := s.groups ++ [s.current], current := [n], lastEnd := n.offset + n.byteSize }
+
+/-- the grouping loop on nodes already sorted by offset (`sorted(nodes, key=offset)`) -/
+def groupNodes (nodes : List Node) : List (List Node) :=
+  match nodes with
+  | [] => []
+  | n0 :: _ =>
+    let s := nodes.foldl groupStep ⟨[], [], n0.offset⟩
+    if s.current.isEmpty then s.groups else s.groups ++ [s.current]
+
+def sumSizes (g : List Node) : Nat := (g.map (·.byteSize)).sum
+
+/-- `(group[0].offset, sum of byte sizes)` per group -/
+def byteQueries (groups : List (List Node)) : List (Nat × Nat) :=
+  groups.map fun g => ((g.head?.map (·.offset)).getD 0, sumSizes g)
+
+/-- `seek(offset); read(size)` for each query, concatenated -/
+def fetchAll (file : List UInt8) (qs : List (Nat × Nat)) : List UInt8 :=
+  qs.flatMap fun q => (file.drop q.1).take q.2
+
+/-- `sorted(nodes, key=attrgetter("offset"))` (stable) -/
+def sortNodes (nodes : List Node) : List Node := nodes.mergeSort (fun a b => decide (a.offset ≤ b.offset))
+
+/-- `(point_count, byte_size)` per node, in the same order -/
+def chunkTable (nodes : List Node) : List (Int × Nat) := nodes.map fun n => (n.count, n.byteSize)
+
 end LasModel.Copc
